@@ -63,6 +63,7 @@ let aot_arg (items : Sx.t list) : AotTree.arg =
     | "global" -> glob := true
     | "hide" -> hide := true
     | "required" -> req := true
+    | "cx" -> ()  (* conflicts_with: read by the zsh generator only *)
     | _ -> raise Bad_spec) (Stdlib.List.tl items);
   { AotTree.a_id = id; a_short = !short; a_long = !long;
     a_short_aliases = Stdlib.List.rev !sa; a_aliases = Stdlib.List.rev !la;
